@@ -158,9 +158,19 @@ def constructor_field_terms(ctx, adt):
 
 
 def run(ctx):
+    structures = run_clear_rules(ctx)
+    run_clone_rules(ctx, structures)
+
+
+def run_clear_rules(ctx, only_adt=None, floor=10):
+    """R19-clear-covers-state / -constants / -is-empty; other properties re-use it for their structure (a sampler or sketch
+    that keeps state across clear() violates their guarantees for the next stream)"""
     prog = ctx.prog
     clears = clear_methods(ctx)
-    ctx.floor("R19-clear-covers-state", len(clears), 10, "types with a clear() method (9 public structures + TDigestInner)")
+    all_clear_keys = {c.key for c in clears}
+    if only_adt is not None:
+        clears = [c for c in clears if c.impl_self == only_adt]
+    ctx.floor("R19-clear-covers-state", len(clears), floor, "types with a clear() method (9 public structures + TDigestInner)")
     structures = []
     for clr in clears:
         adt = clr.impl_self
@@ -185,7 +195,7 @@ def run(ctx):
             ctx.fail("R19-clear-covers-state", adt + ":<no-return-path>", clr, "clear() has no returning path")
             continue
         short = adt.split("::")[-1]
-        nested_cleared = nested_clear_prefixes(ctx, clr, {c.key for c in clears})
+        nested_cleared = nested_clear_prefixes(ctx, clr, all_clear_keys)
         for path in sorted(mut):
             m, w = mut[path][0]
             pstr = ".".join(path)
@@ -239,6 +249,11 @@ def run(ctx):
             ctx.check(not unreset, "R19-is-empty", ie.key, ie, "is_empty reads %s — all reset by clear()" % sorted(".".join(r) for r in reads),
                       "is_empty reads `%s`, which clear() does not reset" % ".".join(unreset[0]) if unreset else "")
 
+    return structures
+
+
+def run_clone_rules(ctx, structures):
+    prog = ctx.prog
     # ---- R19-clone ------------------------------------------------------------------
     n_clone = 0
     for adt in sorted(set(structures)):
